@@ -1,0 +1,162 @@
+//! Verification hooks. Compiled only with `--features verif`; with the feature off
+//! the crate is exactly the shipped one. Nothing in here changes behaviour: `tick`
+//! counts loop iterations against a per-thread budget (so that a loop which never
+//! advances becomes a located panic instead of a hang), the wrappers expose the
+//! crate-private `Word` pipeline structurally, and `permute_iteration_order` lets a
+//! harness choose the order in which the IPA table's `HashMap` is walked.
+//!
+//! Tick sites: `<file index>*100 + <n-th loop in that file>`, files numbered
+//! 1 subrule.rs, 2 word.rs, 3 lexer.rs, 4 parser.rs, 5 alias/lexer.rs,
+//! 6 alias/parser.rs, 7 syll.rs, 8 trie.rs.
+
+use std::cell::Cell;
+
+use crate::alias::Transformation;
+use crate::rule::Rule;
+use crate::{Error, RuleGroup, Segment};
+
+pub use crate::syll::{StressKind, Syllable};
+pub use crate::word::Word;
+
+thread_local! {
+    static TICKS:  Cell<u64> = const { Cell::new(0) };
+    static BUDGET: Cell<u64> = const { Cell::new(u64::MAX) };
+}
+
+/// Resets the step counter of this thread and sets its budget.
+pub fn set_budget(budget: u64) {
+    TICKS.with(|t| t.set(0));
+    BUDGET.with(|b| b.set(budget));
+}
+
+/// Steps counted on this thread since the last `set_budget`.
+pub fn ticks() -> u64 {
+    TICKS.with(|t| t.get())
+}
+
+#[inline]
+pub fn tick(site: u16) {
+    let over = TICKS.with(|t| {
+        let n = t.get() + 1;
+        t.set(n);
+        n > BUDGET.with(|b| b.get())
+    });
+    if over {
+        // stop counting so that unwinding code which loops does not panic again
+        BUDGET.with(|b| b.set(u64::MAX));
+        panic!("VERIF-BUDGET site={site}");
+    }
+}
+
+/// Parsed rule groups.
+pub struct Compiled(Vec<Vec<Rule>>);
+
+impl Compiled {
+    pub fn groups(&self) -> usize { self.0.len() }
+    pub fn rules_in(&self, group: usize) -> usize { self.0[group].len() }
+}
+
+pub fn compile(groups: &[RuleGroup]) -> Result<Compiled, Error> {
+    Ok(Compiled(crate::parse_rule_groups(groups)?))
+}
+
+/// Applies every rule of group `group` in order, exactly as `run` does for one word.
+pub fn apply_group(c: &Compiled, group: usize, word: Word) -> Result<Word, Error> {
+    let mut w = word;
+    for rule in &c.0[group] {
+        w = rule.apply(w)?;
+    }
+    Ok(w)
+}
+
+pub fn apply_all(c: &Compiled, word: Word) -> Result<Word, Error> {
+    let mut w = word;
+    for g in 0..c.0.len() {
+        w = apply_group(c, g, w)?;
+    }
+    Ok(w)
+}
+
+/// Parsed alias lists.
+pub struct Aliases { into: Vec<Transformation>, from: Vec<Transformation> }
+
+pub fn compile_aliases(into: &[String], from: &[String]) -> Result<Aliases, Error> {
+    let (into, from) = crate::parse_aliases(into, from)?;
+    Ok(Aliases { into, from })
+}
+
+/// One word (no spaces) through the same normalisation and parser as `run`.
+pub fn parse_word(text: &str, aliases: Option<&Aliases>) -> Result<Word, Error> {
+    match aliases {
+        Some(a) => Word::new(crate::normalise(text), &a.into),
+        None    => Word::new(crate::normalise(text), &[]),
+    }
+}
+
+pub fn render_word(word: &Word, aliases: Option<&Aliases>) -> String {
+    match aliases {
+        Some(a) => word.render(&a.from),
+        None    => word.render(&[]),
+    }
+}
+
+pub fn make_word(syllables: Vec<Syllable>) -> Word {
+    Word::verif_from_syllables(syllables)
+}
+
+/// The IPA table, sorted by grapheme.
+pub fn cardinals() -> Vec<(String, Segment)> {
+    let mut v: Vec<(String, Segment)> = crate::CARDINALS_MAP.iter().map(|(k, s)| (k.clone(), *s)).collect();
+    v.sort_by(|a, b| a.0.cmp(&b.0));
+    v
+}
+
+/// The diacritic characters, in table order.
+pub fn diacritics() -> Vec<char> {
+    crate::DIACRITS.iter().map(|d| d.diacrit).collect()
+}
+
+/// The key order the `CARDINALS_VEC` initialiser ended up with.
+pub fn cardinals_vec() -> Vec<String> {
+    crate::CARDINALS_VEC.clone()
+}
+
+thread_local! {
+    static ORDER_SEEN: Cell<u64> = const { Cell::new(0) };
+}
+
+/// FNV-1a hash of the key order most recently handed back by `permute_iteration_order`
+/// on this thread (0 if it was never called here).
+pub fn order_witness() -> u64 {
+    ORDER_SEEN.with(|o| o.get())
+}
+
+/// Environment seam: called on the freshly collected `HashMap` key list. The order is
+/// chosen by `ASCA_VERIF_ORDER` = `sorted` | `rev` | `front:<grapheme>` | `back:<grapheme>`;
+/// unset leaves the order the `HashMap` produced.
+pub fn permute_iteration_order(keys: &mut Vec<String>) {
+    if let Ok(spec) = std::env::var("ASCA_VERIF_ORDER") {
+        keys.sort();
+        if spec == "rev" {
+            keys.reverse();
+        } else if let Some(g) = spec.strip_prefix("front:") {
+            if let Some(i) = keys.iter().position(|k| k == g) {
+                let k = keys.remove(i);
+                keys.insert(0, k);
+            }
+        } else if let Some(g) = spec.strip_prefix("back:") {
+            if let Some(i) = keys.iter().position(|k| k == g) {
+                let k = keys.remove(i);
+                keys.push(k);
+            }
+        }
+    }
+    let mut h: u64 = 0xcbf29ce484222325;
+    for k in keys.iter() {
+        for b in k.bytes().chain(std::iter::once(0xff)) {
+            h ^= b as u64;
+            h = h.wrapping_mul(0x100000001b3);
+        }
+    }
+    ORDER_SEEN.with(|o| o.set(h));
+}
